@@ -1329,7 +1329,11 @@ fn rerun(r: &Value) -> Option<Vec<(String, String, String)>> {
         }
         "stats" => {
             let moduli = r["moduli"].as_array()?.iter().map(|x| x.as_u64()).collect::<Option<Vec<_>>>()?;
-            Some(run_stats(&moduli, r["stream_seed"].as_u64()?))
+            let seed = r["stream_seed"].as_u64()?;
+            Some(match catch_res(|| run_stats(&moduli, seed)) {
+                Ok(b) => b,
+                Err(p) => vec![("samples/stats/panic".into(), "panic".into(), p)],
+            })
         }
         _ => None,
     }
